@@ -684,3 +684,45 @@ V("C14", "io-blank-not-skipped", L,
   ("                    if line:\n                        try:\n                            name, value = line.split(b': ')\n                        except ValueError:\n                            # https://github.com/giampaolo/psutil/issues/1004\n                            continue\n                        else:\n                            fields[name] = int(value)",
    "                    if True:\n                        name, value = line.split(b': ')\n                        fields[name] = int(value)"),
   "fires:C14.R5")
+
+# ----------------------------------------------------------------- C19
+V("C19", "defect-F4-returns", L,
+  ("                    )\n\n            if high is not None:\n                try:\n                    high = float(high) / 1000.0\n                except ValueError:\n                    high = None\n            if critical is not None:\n                try:\n                    critical = float(critical) / 1000.0\n                except ValueError:\n                    critical = None\n\n            ret[unit_name].append(('', current, high, critical))",
+   "                    )\n\n                if high is not None:\n                    try:\n                        high = float(high) / 1000.0\n                    except ValueError:\n                        high = None\n            if critical is not None:\n                try:\n                    critical = float(critical) / 1000.0\n                except ValueError:\n                    critical = None\n\n            ret[unit_name].append(('', current, high, critical))"),
+  "fires:C19.R1")
+V("C19", "hwmon-crit-not-scaled", L,
+  ("                critical = float(critical) / 1000.0\n            except ValueError:\n                critical = None\n\n        ret[unit_name].append((label, current, high, critical))",
+   "                critical = float(critical)\n            except ValueError:\n                critical = None\n\n        ret[unit_name].append((label, current, high, critical))"),
+  "fires:C19.R1")
+V("C19", "thermal-current-div-100", L,
+  ("                path = os.path.join(base, 'temp')\n                current = float(bcat(path)) / 1000.0",
+   "                path = os.path.join(base, 'temp')\n                current = float(bcat(path)) / 100.0"), "fires:C19.R1")
+V("C19", "freq-max-not-scaled", L,
+  ("            max_ = int(bcat(pjoin(path, \"scaling_max_freq\"))) / 1000", "            max_ = int(bcat(pjoin(path, \"scaling_max_freq\")))"),
+  "fires:C19.R1")
+V("C19", "fahrenheit-wrong", I,
+  ("                return (float(n) * 9 / 5) + 32 if fahrenheit else n", "                return (float(n) * 5 / 9) + 32 if fahrenheit else n"),
+  "fires:C19.R1")
+V("C19", "fan-read-unprotected", L,
+  ("        try:\n            current = int(bcat(base + '_input'))\n        except OSError as err:\n            debug(err)\n            continue\n",
+   "        current = int(bcat(base + '_input'))\n"), "fires:C19.R2")
+V("C19", "temp-handler-narrowed", L,
+  ("        except (OSError, ValueError):\n            # A lot of things can go wrong here", "        except ValueError:\n            # A lot of things can go wrong here"),
+  "fires:C19.R2")
+V("C19", "backfill-dropped", I,
+  ("                elif critical and not high:\n                    high = critical\n", ""), "fires:C19.R3")
+V("C19", "battery-percent-inverted", L,
+  ("            percent = 100.0 * energy_now / energy_full", "            percent = 100.0 * energy_full / energy_now"),
+  "fires:C19.R3")
+V("C19", "battery-secs-minutes", L,
+  ("            secsleft = int(energy_now / power_now * 3600)", "            secsleft = int(energy_now / power_now * 60)"),
+  "fires:C19.R3")
+V("C19", "battery-tte-hours", L,
+  ("        secsleft = int(time_to_empty * 60)", "        secsleft = int(time_to_empty * 3600)"), "fires:C19.R3")
+V("C19", "battery-unlimited-when-unplugged", L,
+  ("    if power_plugged:\n        secsleft = _common.POWER_TIME_UNLIMITED", "    if not power_plugged:\n        secsleft = _common.POWER_TIME_UNLIMITED"),
+  "fires:C19.R3")
+V("C19", "freq-mean-by-count-minus-one", I,
+  ("                current = currs / num_cpus", "                current = currs / (num_cpus - 1)"), "fires:C19.R3")
+V("C19", "cpu-count-zero-kept", I,
+  ("    if ret is not None and ret < 1:\n        ret = None\n", ""), "fires:C19.R3")
